@@ -374,7 +374,7 @@ fn judge(pre: &InfoSnap, post: &InfoSnap, epoch: ChainEpoch, caller: Option<Addr
 pub fn run(cfg: &Cfg) -> i32 {
     let mut agg = Agg::new(cfg);
     let tier = cfg.tier;
-    agg.run_parallel("handover", tier.pick(3000, 60000), Duration::from_secs(tier.pick(200, 1500)), |i, rng| history(i, rng, tier));
+    agg.run_parallel("handover", tier.pick(3000, 30000), Duration::from_secs(tier.pick(200, 1500)), |i, rng| history(i, rng, tier));
     agg.finish(
         "exploration",
         "one history = one real miner (cron active in two thirds of the histories) and 45-70 messages: ChangeOwnerAddress proposals / confirmations / mismatching confirmations, ChangeWorkerAddress (new worker, control lists), ConfirmChangeWorkerAddress, ChangeBeneficiary proposals / approvals / altered terms / reverting to the owner, withdrawals and other methods, issued by owner, proposed owner, worker, pending worker, control addresses, beneficiary, nominee and strangers, with epoch advances aimed at the worker-key delay +-1 and beneficiary expiry +-1; every change of owner / worker / control / beneficiary / pending data must be a transition the protocol automata allow for the observed caller, rejected calls change nothing, rights are probed on snapshots; non-trivial = at least 4 info transitions",
